@@ -83,7 +83,7 @@ class Stub:
 
 
 def generate(tier, seed):
-    n = 600 if tier == "quick" else 25000
+    n = 600 if tier == "quick" else 100000
     per = 15
     cases = [{"kind": "req", "k": k, "n": per} for k in range(n // per)]
     for k in range(10 if tier == "quick" else 300):
